@@ -263,6 +263,14 @@ type Case struct {
 	// it as "TX". Its marked elements are elements of another component: they carry the same data-m
 	// text as X's but are emitted independently of them (once per render each).
 	Twins []string `json:"twins,omitempty"`
+	// TwinStyle chooses how the twin files are NAMED relative to X (see twinNames): names that differ
+	// from X's only in letter case, by an extension-like suffix, by dash vs underscore (two twins),
+	// by a unicode letter, by a blank. Include items name a twin by its file name.
+	TwinStyle int `json:"twinstyle,omitempty"`
+	// Lead chooses what every component file carries BEFORE its first element (see leads): nothing,
+	// a blank line, CRLF line ends with a blank first line, a comment header, front matter followed
+	// by a blank line. None of it is significant.
+	Lead int `json:"lead,omitempty"`
 	// Bare lists components whose file consists ONLY of marked elements (no head marker element):
 	// shared asset components. Their items are once items that are plain, carry their own v-if, or
 	// v-for; or a single <template v-once> wrapper as the sole root of the file.
@@ -283,12 +291,56 @@ func stringy(e string) bool     { return e == "string" || e == "byte" || e == "r
 var layoutOrder = []string{"l1", "l2", "l3", "base"}
 var compOrder = []string{"A", "B", "C", "D", "E", "F", "G"}
 
-// twinOf resolves an include target: for "TX" with X in Twins it returns X and true.
+// twinNames lists the file names (without directory and extension) of the twin files of component x.
+func twinNames(x string, style int) []string {
+	switch style {
+	case 1:
+		return []string{strings.ToLower(x)} // components/a.vuego next to components/A.vuego
+	case 2:
+		return []string{x + ".min"}
+	case 3:
+		return []string{x + "-b", x + "_b"}
+	case 4:
+		return []string{x + "é"}
+	case 5:
+		return []string{x + " b"}
+	}
+	return []string{"T" + x}
+}
+
+const twinStyles = 6
+
+// twinOf resolves an include target: for a twin file name of an X in Twins it returns X and true.
 func twinOf(c *Case, name string) (string, bool) {
-	if strings.HasPrefix(name, "T") && indexOf(c.Twins, name[1:]) >= 0 {
-		return name[1:], true
+	for _, x := range c.Twins {
+		if indexOf(twinNames(x, c.TwinStyle), name) >= 0 {
+			return x, true
+		}
 	}
 	return name, false
+}
+
+// leads: insignificant material before the first element of a component file. (The last one, a byte
+// order mark, comes out as an invisible text node at every include on the pinned code; only the
+// counts and positions of the marked elements are asserted, which it does not disturb.)
+var leads = []string{"", "\n", "\r\n", "<!-- shared component -->\n", "---\nasset: true\n---\n\n", "\n\n  \n<!-- a --><!-- b -->\n", "\xef\xbb\xbf"}
+
+// componentFile spells a component file: lead, body; style 2 also turns every line end into CRLF.
+func componentFile(lead int, twinOfX string, body string) string {
+	l := leads[lead%len(leads)]
+	fm := ""
+	if twinOfX != "" {
+		fm = "---\ntwinof: " + twinOfX + "\n---\n"
+		if lead%len(leads) == 4 {
+			l = "\n" // the twin already has front matter of its own: front matter + blank line
+		}
+	}
+	out := fm + l + body
+	if lead%len(leads) == 2 {
+		out = strings.ReplaceAll(out, "\n", "\r\n")
+		out = strings.ReplaceAll(out, "\r\r\n", "\r\n")
+	}
+	return out
 }
 
 func indexOf(l []string, s string) int {
@@ -521,9 +573,11 @@ func files(c Case) map[string]string {
 			fmt.Fprintf(&sb, "<i data-m=\"c%s\">c</i>\n", name)
 		}
 		src(items, &sb)
-		out["components/"+name+".vuego"] = sb.String()
+		out["components/"+name+".vuego"] = componentFile(c.Lead, "", sb.String())
 		if indexOf(c.Twins, name) >= 0 {
-			out["components/T"+name+".vuego"] = "---\ntwinof: " + name + "\n---\n" + sb.String()
+			for _, tn := range twinNames(name, c.TwinStyle) {
+				out["components/"+tn+".vuego"] = componentFile(c.Lead, name, sb.String())
+			}
 		}
 	}
 	for name, l := range c.Layouts {
@@ -770,6 +824,9 @@ func validate(c Case) error {
 				return fmt.Errorf("bare component %q: only plain / own-v-if / v-for marked elements or a sole template wrapper", x)
 			}
 		}
+	}
+	if c.TwinStyle < 0 || c.TwinStyle >= twinStyles || c.Lead < 0 || c.Lead >= len(leads) {
+		return fmt.Errorf("bad twin style / lead")
 	}
 	for _, x := range c.Twins {
 		if _, ok := c.Comps[x]; !ok {
@@ -1208,7 +1265,7 @@ func where(c *Case, m int) string {
 	for _, n := range compOrder {
 		if it := find(c.Comps[n]); it != nil {
 			if indexOf(c.Twins, n) >= 0 {
-				return desc(it, "components/"+n+".vuego and, separately, in its twin file components/T"+n+".vuego")
+				return desc(it, fmt.Sprintf("components/%s.vuego and, separately, in its twin file(s) %q", n, twinNames(n, c.TwinStyle)))
 			}
 			return desc(it, "components/"+n+".vuego")
 		}
@@ -1452,7 +1509,16 @@ func classify(c Case) (bool, []string) {
 		walk(p.Ph, "page-slot-template", false, false, false)
 		walk(p.Pf, "page-slot-template", false, false, false)
 	}
+	if len(c.Twins) > 0 {
+		set[fmt.Sprintf("twin-file-name=%q", twinNames("X", c.TwinStyle))] = true
+	}
+	if len(c.Comps) > 0 {
+		set[fmt.Sprintf("component-file-lead=%q", leads[c.Lead%len(leads)])] = true
+	}
 	for _, n := range c.Bare {
+		if len(c.Comps[n]) == 1 && c.Comps[n][0].Ch == "tpl" && c.Lead > 0 {
+			set["bare-component: sole root <template v-once> after insignificant lead"] = true
+		}
 		set["bare-component (only marked elements)"] = true
 		if len(c.Comps[n]) == 1 && c.Comps[n][0].Ch == "tpl" {
 			set["bare-component: sole root <template v-once>"] = true
@@ -1666,6 +1732,8 @@ type uparams struct {
 	sp         int    // spelling of the first marked element (see uni.sp)
 	pre        int    // which filled slot also carries v-pre (see uni.pre)
 	at         int    // identity-like attribute on every marked element (see uni.at)
+	twin       int    // naming style of the twin file(s) of A
+	lead       int    // what component files carry before their first element
 }
 
 func universeSlots(p uparams) []string {
@@ -1702,7 +1770,10 @@ func universe(fill []string, p uparams) Case {
 	for k := 0; k < p.kA; k++ {
 		P = append(P, inc("A"))
 	}
-	P = append(P, inc("B"), inc("TA")) // the twin file of A, after A itself
+	P = append(P, inc("B"))
+	for _, tn := range twinNames("A", p.twin) { // the twin file(s) of A, after A itself
+		P = append(P, inc(tn))
+	}
 	if u.fill["s2"] {
 		u.kinds++
 		P = append(P, Item{K: "once", M: u.id(), Tag: leafTags[u.kinds%len(leafTags)], Self: true, N: p.nA, Sp: (u.sp + u.kinds - 1) % len(spellings), At: u.at})
@@ -1739,7 +1810,7 @@ func universe(fill []string, p uparams) Case {
 	var Q []Item
 	Q = append(Q, u.slot("q0", all)...)
 	// page 1 meets the twin first
-	Q = append(Q, Item{K: "for", M: u.id(), N: p.nB, Kids: []Item{inc("B")}}, inc("TA"), inc("A"))
+	Q = append(Q, Item{K: "for", M: u.id(), N: p.nB, Kids: []Item{inc("B")}}, inc(twinNames("A", p.twin)[0]), inc("A"))
 	Q = append(Q, Item{K: "inc", Comp: "E", Kp: 1}, Item{K: "inc", Comp: "E", Kp: 2}) // the reverse order
 	Q = append(Q, u.slot("q1", all)...)
 	var A []Item
@@ -1766,11 +1837,13 @@ func universe(fill []string, p uparams) Case {
 	E = append(E, g1...)
 	F := []Item{{K: "once", M: u.id(), Tag: "script", Ch: "tpl", Sp: (u.sp + 1) % len(spellings)}}
 	c := Case{
-		Pages:   []Page{{Items: P}, {Items: Q}},
-		Comps:   map[string][]Item{"A": A, "B": B, "C": C, "D": D, "E": E, "F": F},
-		Twins:   []string{"A"},
-		Bare:    []string{"E", "F"},
-		Layouts: map[string]Layout{},
+		Pages:     []Page{{Items: P}, {Items: Q}},
+		Comps:     map[string][]Item{"A": A, "B": B, "C": C, "D": D, "E": E, "F": F},
+		Twins:     []string{"A"},
+		TwinStyle: p.twin,
+		Lead:      p.lead,
+		Bare:      []string{"E", "F"},
+		Layouts:   map[string]Layout{},
 	}
 	mkL1 := func(next string) Layout {
 		l := Layout{Next: next}
@@ -1851,13 +1924,14 @@ func subsets(names []string, max int) [][]string {
 // random sites
 
 type gen struct {
-	t      *rapid.T
-	next   int
-	budget int // marked elements still to place
-	comps  []string
-	twins  []string        // components that have a twin file
-	at     int             // the identity-like attribute of this site (0: none)
-	usesK  map[string]bool // components with a condition on the prop k
+	t         *rapid.T
+	next      int
+	budget    int // marked elements still to place
+	comps     []string
+	twins     []string        // components that have a twin file
+	at        int             // the identity-like attribute of this site (0: none)
+	usesK     map[string]bool // components with a condition on the prop k
+	twinStyle int
 	// inContent > 0 while drawing supplied slot content or fallback content (no <slot>, no x==k there)
 	inContent int
 	namedOK   bool // named slot content only in sites without layouts
@@ -1865,6 +1939,16 @@ type gen struct {
 }
 
 func (g *gen) id() int { g.next++; return g.next }
+
+// base resolves the name of a twin file to its component.
+func (g *gen) base(name string) string {
+	for _, x := range g.twins {
+		if indexOf(twinNames(x, g.twinStyle), name) >= 0 {
+			return x
+		}
+	}
+	return name
+}
 
 // bare draws the body of an asset component: only marked elements (plain, under the prop k or a
 // constant, or carrying v-for), or a single <template v-once> wrapper as the sole root.
@@ -1922,7 +2006,7 @@ func (g *gen) items(label string, comp, depth int, inLoop bool, max int) []Item 
 			if j > comp {
 				allowed = append(allowed, g.comps[j])
 				if indexOf(g.twins, g.comps[j]) >= 0 {
-					allowed = append(allowed, "T"+g.comps[j])
+					allowed = append(allowed, twinNames(g.comps[j], g.twinStyle)...)
 				}
 			}
 		}
@@ -2002,7 +2086,7 @@ func (g *gen) items(label string, comp, depth int, inLoop bool, max int) []Item 
 			out = append(out, it)
 		case "inc":
 			it := Item{K: "inc", Comp: rapid.SampledFrom(allowed).Draw(g.t, l+"comp")}
-			if g.usesK[strings.TrimPrefix(it.Comp, "T")] {
+			if g.usesK[g.base(it.Comp)] {
 				it.Kp = rapid.IntRange(1, 2).Draw(g.t, l+"kp")
 			}
 			if rapid.IntRange(0, 4).Draw(g.t, l+"o?") == 0 {
@@ -2057,6 +2141,9 @@ func genCase(rec *ev.Rec, openRoot, openTail bool) func(t *rapid.T) Case {
 			}
 		}
 		c.Twins = g.twins
+		g.twinStyle = rapid.IntRange(0, twinStyles-1).Draw(t, "twinstyle")
+		c.TwinStyle = g.twinStyle
+		c.Lead = rapid.SampledFrom([]int{0, 0, 1, 2, 3, 4, 5, 6}).Draw(t, "lead")
 		nLay := rapid.SampledFrom([]int{0, 0, 1, 2, 3}).Draw(t, "layouts")
 		hasBase := rapid.IntRange(0, 3).Draw(t, "base") == 0
 		g.namedOK = nLay == 0 && !hasBase
@@ -2168,7 +2255,7 @@ func genCase(rec *ev.Rec, openRoot, openTail bool) func(t *rapid.T) Case {
 		var fix func(items []Item)
 		fix = func(items []Item) {
 			for i := range items {
-				if items[i].K == "inc" && items[i].Kp == 0 && g.usesK[strings.TrimPrefix(items[i].Comp, "T")] {
+				if items[i].K == "inc" && items[i].Kp == 0 && g.usesK[g.base(items[i].Comp)] {
 					owed++
 					items[i].Kp = 1 + owed%2
 				}
@@ -2230,7 +2317,7 @@ func TestProp(t *testing.T) {
 	shard, shards := run.Shard()
 	// exhaustive: every choice of 1..k slots of the universe site x parameter sets x entry histories
 	params := []uparams{
-		{2, 2, 2, "none", 0, 1, 1}, {0, 1, 3, "l1", 1, 2, 2}, {3, 0, 1, "l1-l2", 2, 1, 3}, {1, 3, 2, "base", 3, 2, 1},
+		{2, 2, 2, "none", 0, 1, 1, 1, 1}, {0, 1, 3, "l1", 1, 2, 2, 3, 3}, {3, 0, 1, "l1-l2", 2, 1, 3, 5, 2}, {1, 3, 2, "base", 3, 2, 1, 2, 4},
 	}
 	maxFill := 2
 	if run.Thorough() {
@@ -2240,7 +2327,7 @@ func TestProp(t *testing.T) {
 		for i, ch := range []string{"none", "l1", "l1-l2", "base"} {
 			// two of the four loop/include settings per chain, so that each setting meets two chains
 			for _, n := range [][3]int{ns[i%4], ns[(i+1)%4]} {
-				params = append(params, uparams{n[0], n[1], n[2], ch, len(params) % len(spellings), 1 + len(params)%3, 1 + len(params)%(len(idAttrs)-1)})
+				params = append(params, uparams{n[0], n[1], n[2], ch, len(params) % len(spellings), 1 + len(params)%3, 1 + len(params)%(len(idAttrs)-1), len(params) % twinStyles, len(params) % len(leads)})
 			}
 		}
 	}
